@@ -24,11 +24,17 @@ Import ListNotations.
 Open Scope N_scope.
 
 (* ------------------------------------------------------------------ cfg *)
-(* No repair is pending any more: every proposed one up to C15-14 is in the frozen tree.  The type is
-   kept so that statements read "for every configuration"; it has a single inhabitant. *)
-Record cfg := mkCfg { }.
-Definition pinned := mkCfg.   (* the code as it stands in /repo (frozen at 6bdc56b) *)
-Definition fixed  := mkCfg.
+(* One repair is proposed but not in the frozen tree: C15-19 (the cached lists of an alias's container are
+   invalidated whenever the alias's resolution changes).  Its effect on the observers is that no cached list
+   is ever stale after an operation that can change an alias resolution; the model renders it by dropping
+   every cached list after add / alias / delete / rename (dropping more lists than the C code does cannot be
+   observed as long as the lists the C code keeps are up to date -- which is what the comparison tests). *)
+Record cfg := mkCfg {
+  fx_xcache : bool;
+  fx_bfrag : bool   (* proposed C15-20: gd_add_alias(D, "parent/sub", ...) puts the alias into the parent's fragment *)
+}.
+Definition pinned := mkCfg false false.   (* the code as it stands in /repo (frozen at 6bdc56b) *)
+Definition fixed  := mkCfg true true.
 
 (* ---------------------------------------------------------------- types *)
 Definition T_RAW := 0.  Definition T_LINCOM := 1.  Definition T_LINTERP := 2.
@@ -530,11 +536,11 @@ Definition op_alias (c : cfg) (s : state) (parent : option name) (praw : name) (
                   if is_alias P0 then
                     match by_oid (s_ents s) (e_dist P0) with
                     | Some P => if e_meta P then (s, RUnmodelled)
-                                else go (Some P) (e_name P ++ SLASH :: sub) sub frag
+                                else go (Some P) (e_name P ++ SLASH :: sub) sub (if fx_bfrag c then e_frag P else frag)
                     | None => (s, RUnmodelled)
                     end
                   else if e_meta P0 then (s, RUnmodelled)
-                  else go (Some P0) (e_name P0 ++ SLASH :: sub) sub frag
+                  else go (Some P0) (e_name P0 ++ SLASH :: sub) sub (if fx_bfrag c then e_frag P0 else frag)
               end
           end
       end
@@ -908,6 +914,9 @@ Definition op_list (s : state) (parent : option name) (sel flags : N) : state * 
 Definition affixed (s : state) : bool :=
   match eff_aff (fst (s_aff s)), eff_aff (snd (s_aff s)) with [], [] => false | _, _ => true end.
 
+Definition post (c : cfg) (r : state * res) : state * res :=
+  if fx_xcache c then (inval_all (fst r), snd r) else r.
+
 Definition praw_of (parent : option name) : name := match parent with Some p => p | None => [] end.
 Definition undot_opt (parent : option name) : option name := match parent with Some p => Some (undot p) | None => None end.
 
@@ -920,12 +929,12 @@ Definition step (c : cfg) (s : state) (o : op) : state * res :=
       match o with
       | OAdd viaspec parent nm ty frag hid ins scs v =>
           if has_dot nm then (s, RUnmodelled)
-          else op_add c s viaspec (undot_opt parent) (praw_of parent) nm ty frag hid ins scs v
+          else post c (op_add c s viaspec (undot_opt parent) (praw_of parent) nm ty frag hid ins scs v)
       | OAlias parent nm tgt frag =>
           if has_dot nm then (s, RUnmodelled)
-          else op_alias c s (undot_opt parent) (praw_of parent) nm tgt frag
-      | ODel nm flags => op_del c s (undot nm) flags
-      | ORen nm new flags => if has_dot new then (s, RUnmodelled) else op_ren s (undot nm) new flags
+          else post c (op_alias c s (undot_opt parent) (praw_of parent) nm tgt frag)
+      | ODel nm flags => post c (op_del c s (undot nm) flags)
+      | ORen nm new flags => if has_dot new then (s, RUnmodelled) else post c (op_ren s (undot nm) new flags)
       | OMove nm frag => op_move s (undot nm) frag
       | OHide nm h => op_hide s (undot nm) h
       | _ => (s, RUnmodelled)
